@@ -168,4 +168,32 @@ theorem parseArgBase_many (l : List Str) (h2 : l.length ≥ 2) (key : Str) (ast 
   | a :: b :: r, _ => simp [parseArgBase, TypeSpecJ.toList]
 
 
+theorem splitNS_cons_ne (x y : Char) (rest : Str) (hx : x ≠ ':') :
+    splitNS (x :: y :: rest) = (match splitNS (y :: rest) with | [] => [[x]] | p :: ps => (x :: p) :: ps) := by
+  rw [splitNS.eq_def]
+  split
+  · rename_i h; cases h
+  · rename_i h; cases h
+  · rename_i h; simp at h; exact absurd h.1 hx
+  · rename_i a b r h1 h; simp at h; obtain ⟨rfl, rfl, rfl⟩ := h; rfl
+
+theorem splitNS_ne_nil (s : Str) : splitNS s ≠ [] := by
+  fun_induction splitNS s <;> simp_all
+
+theorem splitNS_qualified (m rest : Str) (hm : ':' ∉ m) (hne : m ≠ []) : splitNS (m ++ ':' :: ':' :: rest) = m :: splitNS rest := by
+  induction m with
+  | nil => exact absurd rfl hne
+  | cons x xs ih =>
+    simp at hm
+    have hx : x ≠ ':' := fun e => hm.1 e.symm
+    cases xs with
+    | nil =>
+      simp only [List.cons_append, List.nil_append]
+      rw [splitNS_cons_ne x ':' (':' :: rest) hx]
+      simp [splitNS]
+    | cons y ys =>
+      have := ih hm.2 (by simp)
+      simp only [List.cons_append] at this ⊢
+      rw [splitNS_cons_ne x y _ hx, this]
+
 end RubyTi.Config
